@@ -290,6 +290,10 @@ pub fn cases(ctx: &Ctx) -> Vec<Case> {
                 }
             }
         }
+        // PDU grouping is drawn before the run, so that the random stream (and with it every later
+        // case) does not depend on how far this association gets
+        let groups: Vec<usize> = (0..evs.len()).map(|_| if r.coin() { 1 } else { r.range(1, 4) as usize }).collect();
+        let mut gi = 0;
         // ---- run it against the real binary
         let mut rsps: Vec<(u8, u8, u16, String, String)> = vec![];
         let mut alive = false;
@@ -302,39 +306,66 @@ pub fn cases(ctx: &Ctx) -> Vec<Case> {
                     None => note = "association not accepted".into(),
                     Some(acc) => {
                         accepted = acc;
-                        // PDU grouping: one P-DATA value per PDU, or several
+                        // PDU grouping: one P-DATA value per PDU, or several.
+                        // The requestor works in lock step like a real SCU: after a PDU it waits for the
+                        // responses that PDU can trigger (one per last data fragment, one per C-ECHO-RQ)
+                        // or for the peer to close. Never sending ahead matters for determinism: a tool
+                        // that drops the association while unread bytes sit in its socket makes the
+                        // kernel send a reset, which discards responses this side has not read yet.
                         let mut k = 0;
-                        let mut broken = false;
-                        while k < evs.len() {
-                            let g = (if r.coin() { 1 } else { r.range(1, 4) } as usize).min(evs.len() - k);
-                            let data = evs[k..k + g].iter().map(|e| match e {
+                        let mut dead = false;
+                        let mut on_pdu = |p: Pdu, rsps: &mut Vec<(u8, u8, u16, String, String)>| -> usize {
+                            let mut n = 0;
+                            if let Pdu::PData { data } = p {
+                                for v in data {
+                                    if v.value_type != PDataValueType::Command { continue; }
+                                    let ts = dicom_transfer_syntax_registry::entries::IMPLICIT_VR_LITTLE_ENDIAN.erased();
+                                    if let Ok(o) = InMemDicomObject::read_dataset_with_ts(&v.data[..], &ts) {
+                                        let f = o.element(tags::COMMAND_FIELD).ok().and_then(|e| e.uint16().ok()).unwrap_or(0);
+                                        let m = o.element(tags::MESSAGE_ID_BEING_RESPONDED_TO).ok().and_then(|e| e.uint16().ok()).unwrap_or(0);
+                                        let s = |t| o.element(t).ok().and_then(|e| e.to_str().ok().map(|s| s.to_string())).unwrap_or_default();
+                                        if f == 0x8030 { rsps.push((0, v.presentation_context_id, m, String::new(), String::new())); }
+                                        else { rsps.push((1, v.presentation_context_id, m, s(tags::AFFECTED_SOP_CLASS_UID), s(tags::AFFECTED_SOP_INSTANCE_UID))); }
+                                    }
+                                    n += 1;
+                                }
+                            }
+                            n
+                        };
+                        while k < evs.len() && !dead {
+                            let g = groups[gi].min(evs.len() - k);
+                            gi += 1;
+                            let group = &evs[k..k + g];
+                            let triggers = group.iter().filter(|e| match e {
+                                Ev::Data { last, .. } => *last,
+                                Ev::Cmd { last, bytes, .. } => *last && matches!(parse_command(bytes), CmdParse::Echo),
+                            }).count();
+                            let data = group.iter().map(|e| match e {
                                 Ev::Cmd { last, pc, bytes } => pdv(*pc, true, *last, bytes.clone()),
                                 Ev::Data { last, pc, bytes } => pdv(*pc, false, *last, bytes.clone()),
                             }).collect();
-                            if w.send(&Pdu::PData { data }).is_err() { broken = true; break; }
+                            if w.send(&Pdu::PData { data }).is_err() { dead = true; break; }
                             k += g;
-                        }
-                        if !broken { let _ = w.send(&Pdu::ReleaseRQ); }
-                        // collect everything the tool sends until release / close
-                        loop {
-                            match w.recv() {
-                                Some(Pdu::PData { data }) => {
-                                    for v in data {
-                                        if v.value_type != PDataValueType::Command { continue; }
-                                        let ts = dicom_transfer_syntax_registry::entries::IMPLICIT_VR_LITTLE_ENDIAN.erased();
-                                        if let Ok(o) = InMemDicomObject::read_dataset_with_ts(&v.data[..], &ts) {
-                                            let f = o.element(tags::COMMAND_FIELD).ok().and_then(|e| e.uint16().ok()).unwrap_or(0);
-                                            let m = o.element(tags::MESSAGE_ID_BEING_RESPONDED_TO).ok().and_then(|e| e.uint16().ok()).unwrap_or(0);
-                                            let s = |t| o.element(t).ok().and_then(|e| e.to_str().ok().map(|s| s.to_string())).unwrap_or_default();
-                                            if f == 0x8030 { rsps.push((0, v.presentation_context_id, m, String::new(), String::new())); }
-                                            else { rsps.push((1, v.presentation_context_id, m, s(tags::AFFECTED_SOP_CLASS_UID), s(tags::AFFECTED_SOP_INSTANCE_UID))); }
-                                        }
-                                    }
+                            let mut got = 0;
+                            while got < triggers {
+                                match w.recv() {
+                                    Some(p) => got += on_pdu(p, &mut rsps),
+                                    None => { dead = true; break; }
                                 }
-                                Some(Pdu::ReleaseRP) => { alive = true; break; }
-                                Some(_) => {}
-                                None => break,
                             }
+                        }
+                        if !dead && w.send(&Pdu::ReleaseRQ).is_ok() {
+                            loop {
+                                match w.recv() {
+                                    Some(Pdu::ReleaseRP) => { alive = true; break; }
+                                    Some(p) => { on_pdu(p, &mut rsps); }
+                                    None => break,
+                                }
+                            }
+                        } else {
+                            // the peer is gone (or going): wait until it has closed its end, so that
+                            // everything it did for this association is on disk before the listing
+                            while let Some(p) = w.recv() { on_pdu(p, &mut rsps); }
                         }
                     }
                 }
